@@ -11,3 +11,7 @@ import Heathcliff.Props.C15
 #print axioms HC.C15.truncation_is_error
 #print axioms HC.C15.truncation_is_eof
 #print axioms HC.C15.modelled_types_lawful
+#print axioms HC.C15.write_all_interrupts_invisible
+#print axioms HC.C15.serialize_interrupts_invisible
+#print axioms HC.C15.serialize_faulty_interrupting
+#print axioms HC.C15.pinned_writers_not_interrupt_safe
